@@ -34,7 +34,7 @@ PROPERTIES
   Act_C02_SwapSender
   Act_C02_SwapRecipient
   Act_C02_Bounds
-  Act_C02_Frame_ModF1
+  Act_C02_Frame
   Act_C02_AddTakesAtMost
   Act_C02_RemoveGivesAtLeast
   Act_C02_Supply
